@@ -18,7 +18,7 @@ LEVEL_NOTE = ("Trusted: virtual clock (the reference run is reproducible, so 'af
               "encoding used by the recovery-budget model (shared with C08).")
 DESIGN_REF = "§5 C12"
 RULE = "case = (deterministic program, pause tick k); all k of each program are enumerated; distinct = hash of (program, k, state summary); non-trivial = pause state has queued or running work"
-REQUIRED_REACH = ["pause_point", "resumed_run", "result_compare", "state_compare", "retry_continuity_eval", "resumed_in_flight_retry", "fixed_point_eval", "fixed_point_with_waiter", "pause_with_collected", "queue_entry_roundtrip_eval", "queued_with_recovery_budget", "queued_with_retry_info", "resumed_run_snapshotted_again", "typed_state_pause_point", "second_generation_resume", "second_generation_resume_with_parallel_invocations", "pause_after_sender_completed", "pause_with_sent_events_not_yet_processed", "restore_twice_eval"]
+REQUIRED_REACH = ["pause_point", "resumed_run", "result_compare", "state_compare", "retry_continuity_eval", "resumed_in_flight_retry", "fixed_point_eval", "fixed_point_with_waiter", "pause_with_collected", "queue_entry_roundtrip_eval", "queued_with_recovery_budget", "queued_with_retry_info", "resumed_run_snapshotted_again", "typed_state_pause_point", "second_generation_resume", "second_generation_resume_with_parallel_invocations", "pause_after_sender_completed", "pause_with_sent_events_not_yet_processed", "restore_twice_eval", "resumed_with_open_question_non_json_requirement"]
 ASSUMPTIONS = ["workflows are deterministic and idempotent under re-execution by construction (no ctx.send_event, idempotent state writes)"]
 EXHAUSTIVE = False
 
@@ -34,7 +34,7 @@ def gen_case(seed):
 
     rnd = random.Random(seed)
     x = rnd.random()
-    spec = gen.gen_detsend(rnd) if x < 0.1 else gen.gen_detfan(rnd) if x < 0.25 else (gen.gen_detq(rnd) if x < 0.5 else gen.gen_det(rnd))
+    spec = gen.gen_detwait(rnd) if x > 0.9 else gen.gen_detsend(rnd) if x < 0.1 else gen.gen_detfan(rnd) if x < 0.25 else (gen.gen_detq(rnd) if x < 0.5 else gen.gen_det(rnd))
     if rnd.random() < 0.3:
         spec["typed_state"] = True   # Context[VfState]: containers of a typed state model filled in place
     spec["sched_seed"] = seed
@@ -123,6 +123,14 @@ def check_pause(case, k, snap, ref, acc):
         acc.hit("pause_with_sent_events_not_yet_processed")
     # ---- resume
     spec2 = {**case["spec"], "uid_base": 1000}
+    if (case["spec"].get("meta") or {}).get("answer_on_resume"):
+        # the human answers the question that was open at the pause, 1 s after the resume (its announcement went out before the pause)
+        ext = _answers_for(case, snap)
+        if ext:
+            acc.hit("resumed_with_open_question")
+            if case["spec"]["meta"].get("opaque_req"):
+                acc.hit("resumed_with_open_question_non_json_requirement")
+        spec2["externals"] = ext
     chained = any(w["collected_events"] for w in snap["workers"].values()) or (case["seed"] * 31 + k) % 3 == 0
     if chained:
         # a partly filled collect buffer travels in this snapshot: the resumed run is itself serialized at every yield point
@@ -175,7 +183,7 @@ def check_pause(case, k, snap, ref, acc):
                  and any(w["queue"] or w["in_progress"] for w in e["snap"]["workers"].values())]
         for ent2 in rnd2.sample(cands, min(2, len(cands))):
             snap2 = ent2["snap"]
-            tr3 = engine_run.run_case({**case["spec"], "uid_base": 2000}, ctx_factory=lambda w: Context.from_dict(w, json.loads(json.dumps(snap2))), start=False)
+            tr3 = engine_run.run_case({**case["spec"], "uid_base": 2000, **({"externals": _answers_for(case, snap2)} if case["spec"].get("meta", {}).get("answer_on_resume") else {})}, ctx_factory=lambda w: Context.from_dict(w, json.loads(json.dumps(snap2))), start=False)
             acc.case()
             if tr3.errors:
                 acc.inconclusive.append(f"harness error in second-generation resume seed={case['seed']} k={k}: {tr3.errors[0][:300]}")
@@ -239,6 +247,28 @@ def _roundtrip(case, d):
     out = st.to_serialized(ser)
     out.state = sc.state
     return st, json.loads(json.dumps(out.model_dump(mode="python")))
+
+
+def _answers_for(case, snap):
+    """externals answering the questions that are open in a snapshot (see gen_detwait)"""
+    ext = []
+    if not (case["spec"].get("meta") or {}).get("answer_on_resume"):
+        return ext
+    for w in snap["workers"].values():
+        for cw in w["collected_waiters"]:
+            if cw.get("resolved_event") is not None:
+                continue
+            try:
+                ev0 = json.loads(cw["event"])
+                v0 = (ev0.get("value") or ev0).get("_data", {}).get("v")
+            except Exception:  # noqa: BLE001
+                v0 = None
+            if v0 is not None:
+                pay = {"key": v0}
+                if case["spec"]["meta"].get("opaque_req"):
+                    pay["tok"] = {"$uuid": 7}
+                ext.append({"at": 1.0, "type": "Answer", "pay": pay})
+    return ext
 
 
 def _touch_events(st):
